@@ -86,6 +86,16 @@ CLAIMED.update({
         note="Open findings printed as KNOWN-FINDING: F10 (a lone `pass`/`import` has no meta/program), F07d (a 0x1c-0x1f separator before a hint on the first/last line). Models mirror fixes 2658798 c744e6b 069b3bf 57ac228 d0d94f6.",
         technique="Lean 4 proofs for hint, error and binding spans + property monitoring of every span through tag/collect",
         ref="DESIGN.md §5 C02"),
+    "C15": dict(
+        text="Proof on a generic-tree model of flatten_ast: the dump is the pre-order enumeration with every node, list length and scalar exactly once under its root-to-node path (C15_preorder_once, C15_flatten_eq); the `_pos` path is a prefix-free code and string prefix <=> nesting (C15_path_code, C15_path_nesting, C15_path_root); two expressions get the same `_hash` iff their hashed reprs are equal (C15_hash); the result is independent of the hash-factory state, for any sequence of flattenings (C15_stateless, C15_sequence); four of the six post-processing passes (suppress_kinds, suppress_alias_pos, suppress_posonlyargs — also composed — and unquote) are proved equal to tree-level tweaks under local clauses; C15_async_body_last and C15_bytes_kind_agrees mirror fixes d0d94f6 c370a5d.",
+        note="Partial: backport_all_constants, simplify_negative_literals and the composition of all six passes (C15_tweaks_full, stated as a def) are exercised only, as is 'same repr <=> same expression up to load/store context'. Trusted: the exporter of real ast trees; the hand transcription of the six regexes (validated token-level bounded-exhaustively against the real engine each run); CPython's parser. Open findings F15a-d (text-level regexes acting inside string/bytes constants).",
+        technique="Lean 4 structural induction on nested trees, prefix-code lemmas, state-invariant refinement of the hash factory + differential correspondence on corpus, grammar-generated (all 107 ast classes of 3.12) and adversarial programs",
+        ref="DESIGN.md §5 C15"),
+    "C01": dict(
+        text="Proof (partial): C01_node_labels — on the dump of any well-formed tree, the hand matcher of spec.md's overlapped `node` pattern yields exactly one (type, own line) per positioned node, in pre-order, and nothing else for positioned types; C01_binding_own_line / C01_binding_start (get_bindings starts on the node's own line); C01_same_text (tagging depends on the program only through the stored source). The parser, cleaning and the link flatten_ast = dump(tweak) are tied by C15 and by end-to-end correspondence through ProgramParser, cli_tag and TagDatabase under both cleanup strategies against the multiset computed from ast.parse(stored_source).",
+        note="Trusted: the hand matcher of the spec.md pattern (validated against the real regex engine each run; domain: at most one `/_type=` per line), CPython's parser, the C15 tie. Open findings F15a, F15d, F17 (a string constant containing `_pos=` crashes pos_to_span).",
+        technique="Lean 4 proofs over the tree model + string-occurrence lemmas for the regex transcription + matcher-vs-engine and end-to-end differential correspondence",
+        ref="DESIGN.md §5 C01"),
 })
 PENDING_REASON = "not claimed yet: model/theorems/correspondence for this property are still under construction (see DESIGN.md §5/§9)"
 
